@@ -480,6 +480,31 @@ func ruleConv(c *Ctx) {
 			total := len(c.callsTo(loop.body, "conv.assertTypeEquals"))
 			ok = startsAt1 && n == wantAsserts && total == wantAsserts
 			why = fmt.Sprintf("starts at 1: %v; unconditional assertTypeEquals in the loop: %d of %d expected (total %d)", startsAt1, n, wantAsserts, total)
+			// every iteration runs to its end: a skipped element leaves a hole (a nil *val.Val) in a container whose type says otherwise
+			inspectNoLit(loop.body, func(x ast.Node) bool {
+				switch x.(type) {
+				case *ast.BranchStmt, *ast.ReturnStmt:
+					ok = false
+					why += "; the loop body can leave an iteration early (" + c.pos(x.Pos()) + "): that element is never converted or stored"
+				}
+				return true
+			})
+			// .. and stores the element it converted, unconditionally
+			stores := 0
+			for _, st := range loop.body.List {
+				if es, isExpr := st.(*ast.ExprStmt); isExpr {
+					if ce, isCall := es.X.(*ast.CallExpr); isCall {
+						switch c.calleeName(ce) {
+						case "val.ListVal.Set", "val.ListVal.Add", "val.MapVal.Put":
+							stores++
+						}
+					}
+				}
+			}
+			if stores != 1 {
+				ok = false
+				why += fmt.Sprintf("; %d unconditional stores of the converted element in the loop (expected 1)", stores)
+			}
 		}
 		c.R.Check(ok, "conv."+fn, "CONV-3 every later element compared with the first, unconditionally", fd.Pos(), why, "homogeneity of converted containers is not asserted for every element: "+why+" — a container whose declared element type lies about some entries is produced instead of an error")
 	}
@@ -1421,6 +1446,7 @@ func ruleDebug(c *Ctx) {
 		}
 		c.R.Check(sites >= 3, "closure", "DB-7 flag-passing call sites found", token.NoPos, "compile0, dispatchers and argument compilation pass the flag", "fewer than three flag-passing call sites found in the closure compiler")
 	}
+	c.sourceIdentity("DB-8")
 	// DB-3 column flow in the parser
 	for fn, want := range map[string]string{"parseCall": "(CallExpr Fun:(SelectorExpr pos Sel:DBGCol) Args:[(SelectorExpr $p3 Sel:Col)])", "parseDot": "(CallExpr Fun:(SelectorExpr pos Sel:DBGCol) Args:[(SelectorExpr $p3 Sel:Col)])", "parseSubscript": "(CallExpr Fun:(SelectorExpr pos Sel:DBGCol) Args:[(SelectorExpr $p3 Sel:Col)])"} {
 		fd := c.FuncDecl("parser", fn)
@@ -1674,4 +1700,132 @@ func sqlHelperRoles(c *Ctx, printed string) string {
 		}
 	}
 	return printed
+}
+
+
+// sourceIdentity: token positions (Idx, Col, Line) are offsets into the string the lexer was given, and the debug report
+// prints the string Debug was given with values placed at those columns. The two agree only if the very same, unmodified
+// string travels Debug -> Expr.Compile -> Expr.Parse -> lexer.Lex -> []rune(..), starting at the zero position, and the
+// renderer is handed that same string. Each hop is checked: the argument is the function's own string parameter, which is
+// never assigned (trimmed, normalised, re-sliced) in that function.
+func (c *Ctx) sourceIdentity(tag string) {
+	unmodified := func(fd *ast.FuncDecl, o types.Object) bool {
+		ok := true
+		ast.Inspect(fd.Body, func(x ast.Node) bool {
+			switch s := x.(type) {
+			case *ast.AssignStmt:
+				for _, l := range s.Lhs {
+					if c.objOf(l) == o {
+						ok = false
+					}
+				}
+			case *ast.UnaryExpr:
+				if s.Op == token.AND && c.objOf(s.X) == o {
+					ok = false
+				}
+			case *ast.IncDecStmt:
+				if c.objOf(s.X) == o {
+					ok = false
+				}
+			}
+			return ok
+		})
+		return ok
+	}
+	strParam := func(fd *ast.FuncDecl) types.Object {
+		for _, fl := range fd.Type.Params.List {
+			for _, n := range fl.Names {
+				if o := c.objOf(n); o != nil && typeStr(o.Type()) == "string" {
+					return o
+				}
+			}
+		}
+		return nil
+	}
+	hops := []struct {
+		pkg, fn string
+		callees []string
+	}{
+		{"yae", "Debug", []string{"yae.Expr.Compile", "debug.Record.Render"}},
+		{"yae", "Expr.Compile", []string{"yae.Expr.Parse"}},
+		{"yae", "Expr.Parse", []string{"parser/lexer.lexer.Lex"}},
+	}
+	for _, h := range hops {
+		fd := c.FuncDecl(h.pkg, h.fn)
+		name := h.pkg + "." + h.fn
+		if fd == nil {
+			c.R.Anchor(name)
+			continue
+		}
+		p := strParam(fd)
+		if p == nil {
+			c.R.Unk(name, tag+" source string handed on unchanged", fd.Pos(), "no string parameter")
+			continue
+		}
+		for _, cn := range h.callees {
+			calls := c.callsTo(fd.Body, cn)
+			ok := len(calls) > 0 && unmodified(fd, p)
+			why := "the source parameter is reassigned before it is handed on"
+			if len(calls) == 0 {
+				why = "no call of " + cn
+			}
+			for _, call := range calls {
+				found := false
+				for _, a := range call.Args {
+					if id, isID := unparen(a).(*ast.Ident); isID && c.objOf(id) == p {
+						found = true
+					}
+				}
+				if !found {
+					ok = false
+					why = "the string handed to " + cn + " is not the caller's own source parameter"
+				}
+			}
+			c.R.Check(ok, name, tag+" source string handed unchanged to "+cn, fd.Pos(), "the parameter itself, never assigned", why+": token columns and the rendered source line no longer refer to the same string")
+		}
+	}
+	lx := c.FuncDecl("parser/lexer", "lexer.Lex")
+	if lx == nil {
+		c.R.Anchor("parser/lexer.lexer.Lex")
+		return
+	}
+	p := strParam(lx)
+	okIn, okPos := false, false
+	whyIn := "no assignment of []rune(<parameter>) to the lexer's rune buffer"
+	inspectNoLit(lx.Body, func(x ast.Node) bool {
+		as, ok := x.(*ast.AssignStmt)
+		if !ok || len(as.Lhs) != 1 || len(as.Rhs) != 1 {
+			return true
+		}
+		lt := c.typeOf(as.Lhs[0])
+		if lt == nil {
+			return true
+		}
+		if _, isSel := unparen(as.Lhs[0]).(*ast.SelectorExpr); !isSel {
+			return true
+		}
+		switch typeStr(lt) {
+		case "[]rune", "[]int32":
+			if ce, ok := unparen(as.Rhs[0]).(*ast.CallExpr); ok && len(ce.Args) == 1 {
+				if tv, ok := c.infoAt(ce).Types[ce.Fun]; ok && tv.IsType() {
+					if id, ok := unparen(ce.Args[0]).(*ast.Ident); ok && p != nil && c.objOf(id) == p {
+						okIn = true
+					} else {
+						whyIn = "the rune buffer is built from " + src(ce.Args[0]) + ", not from the parameter"
+					}
+				}
+			}
+		case "parser/pos.Pos":
+			if cl, ok := unparen(as.Rhs[0]).(*ast.CompositeLit); ok && len(cl.Elts) == 0 {
+				okPos = true
+			}
+		}
+		return true
+	})
+	if p != nil && !unmodified(lx, p) {
+		okIn = false
+		whyIn = "the input parameter is reassigned (trimmed / normalised) before it is lexed"
+	}
+	c.R.Check(okIn, "parser/lexer.lexer.Lex", tag+" the lexed runes are the caller's string", lx.Pos(), "l.input = []rune(input), input never assigned", whyIn+": every token position is then an offset into a different string than the one the caller holds")
+	c.R.Check(okPos, "parser/lexer.lexer.Lex", tag+" lexing starts at the zero position", lx.Pos(), "l.Pos = pos.Pos{}", "the cursor is not reset to the zero position at the start of Lex")
 }
